@@ -12,6 +12,25 @@ from vlib import c02_formats as F, c02_mut as M, c02_pgp as P
 # Keys of genuine-looking defects of relic found by this check. They are printed as SUSPECTED-DEFECT (not VIOLATION) until the
 # maintainer of /verif decides between a fix and known_findings.json. Exact keys only; anything else is a VIOLATION.
 SUSPECTED = [
+    # RFC 5652 §5.3/§11.1: the content-type signed attribute must equal eContentType; relic never compares them, so the
+    # eContentType of a detached/opaque CMS can be rewritten (Authenticode formats compare the OID with SpcIndirectData and are safe)
+    "C02:spec:cat:cms-econtent-type", "C02:spec:dmg:cms-econtent-type", "C02:spec:macho:cms-econtent-type", "C02:spec:xar:cms-econtent-type",
+    "C02:spec:jar:cms-econtent-type", "C02:spec:apk:cms-econtent-type",
+    # DESIGN §5 F13: archive members that no manifest entry / OPC reference covers are accepted
+    "C02:spec:jar:unlisted-member", "C02:spec:vsix:unlisted-member",
+    # PowerShell: text after "# SIG # End signature block" is neither digested nor refused; the byte before the LF that precedes
+    # the begin marker is dropped unseen (any value verifies)
+    "C02:spec:ps:content-after-block", "C02:spec:ps:byte-before-block",
+    # clearsigned / inline PGP: bytes after the signature are ignored and the file is reported OK
+    "C02:spec:pgp-clearsign:content-after-signature", "C02:spec:pgp-inline:content-after-signature",
+    # RPM: SHA1HEADER (269) and MD5 (1004) digests of the signature header are never compared (SHA256HEADER and the signatures are)
+    "C02:spec:rpm:digest-tag-269-unchecked", "C02:spec:rpm:digest-tag-1004-unchecked",
+    # xar: the <signature style="RSA"> value is never verified, only the CMS <x-signature>
+    "C02:spec:xar:rsa-signature-value",
+    # dmg: the koly trailer is re-serialised from parsed fields before hashing, so its reserved bytes are not covered
+    "C02:spec:dmg:koly-reserved",
+    # deb: control/data members may be swapped (names and contents are checked, archive order is not)
+    "C02:spec:deb:members-reordered",
 ]
 
 PGP_ONLY = ("deb", "rpm", "pgp-detached", "pgp-clearsign", "pgp-inline")
@@ -179,8 +198,11 @@ class Run:
             if v is not None and (v == art.view or v in self.genuine.get(art.fixture + "|" + fmt, ()) or (spec.get("neutral") and spec["neutral"](art.view, v))):
                 self.note(fmt, "accepted_unprotected", klass)
                 return
-        if v is not None and spec.get("classify") and mut.get("expect") != "reject":
-            klass = spec["classify"](art.view, v) or klass
+        if v is not None and mut.get("expect") != "reject":
+            if F.blank_etype(v) == F.blank_etype(art.view):
+                klass = "cms-econtent-type"
+            elif spec.get("classify"):
+                klass = spec["classify"](art.view, v) or klass
         self.note(fmt, "accepted_protected", klass)
         key = "C02:spec:%s:%s%s" % (fmt, klass, ":unparseable" if v is None and mut.get("expect") != "reject" else "")
         if mut.get("key"):
